@@ -52,12 +52,28 @@ def missing_functions(frontend_error):
     return sorted(set(re.findall(r'cannot find function `(\w+)`', frontend_error or '')))
 
 
-def extend(unit, names):
-    """adds the stubs for `names` to `unit`; returns the list of home units, or None if a name is unknown"""
+def extend(unit, names, sources=None):
+    """adds the stubs for `names` to `unit`; returns the list of home units, or None if a name is unknown.
+    Names without a proved contract are inlined if they are inlineable private helpers (lib/inline.py, R18)."""
     homes = []
     for n in names:
         if n not in AUTO:
-            return None
+            if sources is None:
+                return None
+            import inline
+            import vgen
+            it = inline.find_helper(n, sources)
+            if it is None:
+                return None
+            try:
+                hn, hp, hb = inline.plan(it, vgen.strip_attrs_and_comments)
+            except inline.NotInlineable:
+                return None
+            if not hasattr(unit, 'inline_helpers'):
+                unit.inline_helpers = []
+            if not any(h[0] == hn for h in unit.inline_helpers):
+                unit.inline_helpers.append((hn, hp, hb))
+            continue
         key, add, home, specs = AUTO[n]
         if key in unit.fn_contracts:
             if home in homes:
